@@ -33,7 +33,8 @@ TECHNIQUE = ("stateless exploration of every enabled block / iterator life-cycle
              "library, compared after every step with a reference stack machine")
 RULE = ("cases = operation histories (enter/leave blocks, iterator create/next/close/drop/exhaust), every enabled "
         "sequence up to the depth bound; non-trivial = the history contains both a block operation and an iterator "
-        "operation; states = distinct (observation, iterator states, block stack) fingerprints reached")
+        "operation; states = distinct (observation, iterator states, block stack) fingerprints reached"
+        ' Wave 7: the same histories over evaluations that raise (user code raising inside next(), the(...) without / with several solutions), handled inside the open blocks.')
 ASSUMPTIONS = ["single thread, single contextvars context (what the statement quantifies over)",
                "blocks are entered/left via __enter__/__exit__ in LIFO order, as nested with-statements do"]
 BATCH = 300
